@@ -47,12 +47,14 @@ def sd_to_dict(sd, explicit_bounds=None):
     d[u.SERVICES] = srvn
     d[u.PROCESSES] = procn
     d[u.SENSITIVE_HOSTS] = {a: v for a, v in sd["sens"]}
+    en, pn = sd.get("anames") or ([f"e{i}" for i in range(len(sd["exploits"]))],
+                                  [f"pe{i}" for i in range(len(sd["privescs"]))])
     d[u.EXPLOITS] = {
-        f"e{i}": {u.EXPLOIT_SERVICE: srvn[e["srv"]], u.EXPLOIT_OS: None if e["os"] is None else osn[e["os"]],
+        en[i]: {u.EXPLOIT_SERVICE: srvn[e["srv"]], u.EXPLOIT_OS: None if e["os"] is None else osn[e["os"]],
                   u.EXPLOIT_PROB: e["prob"], u.EXPLOIT_COST: e["cost"], u.EXPLOIT_ACCESS: e["acc"]}
         for i, e in enumerate(sd["exploits"])}
     d[u.PRIVESCS] = {
-        f"pe{i}": {u.PRIVESC_PROCESS: procn[p["proc"]], u.PRIVESC_OS: None if p["os"] is None else osn[p["os"]],
+        pn[i]: {u.PRIVESC_PROCESS: procn[p["proc"]], u.PRIVESC_OS: None if p["os"] is None else osn[p["os"]],
                    u.PRIVESC_PROB: p["prob"], u.PRIVESC_COST: p["cost"], u.PRIVESC_ACCESS: p["acc"]}
         for i, p in enumerate(sd["privescs"])}
     d[u.SERVICE_SCAN_COST], d[u.OS_SCAN_COST], d[u.SUBNET_SCAN_COST], d[u.PROCESS_SCAN_COST] = sd["costs"]
@@ -262,6 +264,12 @@ def maybe_collide(rng, sd):
     if rng.random() < 0.3:
         pool = [f"n{i}" for i in range(max(sd["nos"], sd["nsrv"], sd["nproc"]) + 1)]
         sd["names"] = (rng.sample(pool, sd["nos"]), rng.sample(pool, sd["nsrv"]), rng.sample(pool, sd["nproc"]))
+    # an exploit and an escalation may carry the same name (two separate dicts), also the name of a scan
+    sd.pop("anames", None)
+    if rng.random() < 0.25:
+        pool = [f"cve{i}" for i in range(max(len(sd["exploits"]), len(sd["privescs"])) + 1)] + \
+               ["service_scan", "os_scan", "subnet_scan", "process_scan"]
+        sd["anames"] = (rng.sample(pool, len(sd["exploits"])), rng.sample(pool, len(sd["privescs"])))
     return sd
 
 
